@@ -268,7 +268,14 @@ def case_genai(rng, choice=None):
     vs = []
     from efootprint.builders.services.generative_ai_ecologits import models
     allm = [(m.provider.name, m.name) for m in models.list_models()]
-    provider, name = choice or rng.choice(allm)
+    # one model of each kind the size rule distinguishes, with equal probability: a number, a range, a mixture of
+    # experts given by numbers, a mixture of experts given by ranges
+    kinds_ = {}
+    for m in models.list_models():
+        p_ = m.architecture.parameters
+        k_ = ("moe-" + ("range" if hasattr(p_.active, "min") else "number")) if hasattr(p_, "active") else ("dense-" + ("range" if hasattr(p_, "min") else "number"))
+        kinds_.setdefault(k_, []).append((m.provider.name, m.name))
+    provider, name = choice or rng.choice(kinds_[rng.choice(sorted(kinds_))])
     tokens = rng.choice([100, 1000, 2500])
     starts = [round(rng.uniform(0.1, 5), 2) for _ in range(rng.randint(3, 8))]
     try:
@@ -291,6 +298,21 @@ def case_genai(rng, choice=None):
                               "data_stored": job.data_stored, "request_duration": job.request_duration,
                               "compute_needed": job.compute_needed, "base_ram_consumption": svc.base_ram_consumption}))
     active, total = phys(svc.active_params)[0], phys(svc.total_params)[0]
+    # the model's sizes as the EcoLogits repository gives them (a number, a range → its middle, or active/total of a
+    # mixture of experts, each a number or a range)
+    def mid(x):
+        return (frac(x.min) + frac(x.max)) / 2 if hasattr(x, "min") and hasattr(x, "max") else frac(x)
+    try:
+        prm = models.find_model(provider=provider, model_name=name).architecture.parameters
+        exp_active = mid(prm.active) if hasattr(prm, "active") else mid(prm)
+        exp_total = mid(prm.total) if hasattr(prm, "total") else mid(prm)
+        kind_ = "moe" if hasattr(prm, "active") else "dense"
+        if not close_q((active, (0, 0, 0, 0, 0)), (exp_active * 10 ** 9, (0, 0, 0, 0, 0))):
+            vs.append((f"genai-active-params:{kind_}", f"{provider}/{name}: active parameters {float(active):.4g} but EcoLogits says {float(exp_active)} billion"))
+        if not close_q((total, (0, 0, 0, 0, 0)), (exp_total * 10 ** 9, (0, 0, 0, 0, 0))):
+            vs.append((f"genai-total-params:{kind_}", f"{provider}/{name}: total parameters {float(total):.4g} but EcoLogits says {float(exp_total)} billion"))
+    except Exception as e:  # noqa
+        vs.append(("genai-repository-lookup-raises", f"{provider}/{name}: {type(e).__name__}: {e}"))
     bits = phys(svc.nb_of_bits_per_parameter)[0]
     fac = phys(svc.llm_memory_factor)[0]
     if not close_q(phys(svc.base_ram_consumption), (fac * total * bits, (0, 0, 0, 0, 0))):
